@@ -1750,6 +1750,19 @@ def replace_for_loops_with_set_list_comp(source: str) -> str:
 
         augass_template = ast.AugAssign(op=(ast.Add, ast.Sub), target=ast.Name(id=target))
 
+        # What is being built cannot be read while it is built
+        if isinstance(body_node, ast.AugAssign):
+            element = [body_node.value]
+        elif isinstance(body_node, ast.Expr) and isinstance(body_node.value, ast.Call):
+            element = body_node.value.args
+        else:
+            element = []
+        parts = element + [
+            part for comprehension in generators for part in [comprehension.iter, *comprehension.ifs]
+        ]
+        if any(name.id == target for part in parts for name in core.walk(part, ast.Name)):
+            continue
+
         if template_match := core.match_template(body_node, target_alter_template):
             if core.match_template(value, list_init_template) and (template_match.attr == "append"):
                 comp_type = ast.ListComp
